@@ -59,6 +59,11 @@ def p2_structs(reduced=False):
     for nm, tid, hnd in (("COUNTER", 0xF82, 0x0F82), ("ModA5", 0x0A5, 0x1A5), ("Mod20", 0x020, 0x120), ("ModFF", 0x0FF, 0x1FF), ("Mod64", 0x064, 0x164)):
         hl.append(p.add_type(TypeDef(nm, tid, hnd, 12, [Member("CTL", "DINT", 0), Member("PRE", "DINT", 4), Member("ACC", "DINT", 8),
                                                    Member("CU", "BOOL", 3, 0, 7), Member("DN", "BOOL", 3, 0, 5)], predefined=True, first_member_is_name=True)))
+    # structures that merely START like a string (LEN, DATA, then more), and ones whose LEN / DATA have other types
+    packet = p.add_type(layout("Packet", 0x30A, 0xB00A, [("LEN", "DINT", 0), ("DATA", "SINT", 16), ("CRC", "DINT", 0), ("Valid", "BOOL", 0)]))
+    logline = p.add_type(layout("LogLine", 0x30B, 0xB00B, [("LEN", "DINT", 0), ("DATA", "SINT", 40), ("Severity", "INT", 0)]))
+    notstr = p.add_type(layout("NotStr", 0x30C, 0xB00C, [("LEN", "INT", 0), ("DATA", "INT", 8)]))
+    holder = p.add_type(layout("PacketHolder", 0x30D, 0xB00D, [("pk", packet, 0), ("lines", logline, 2), ("n", notstr, 0)]))
     # an AOI-like type with EnableIn/EnableOut
     aoi = p.add_type(layout("MyAOI", 0x308, 0xB008, [("EnableIn", "BOOL", 0), ("EnableOut", "BOOL", 0), ("param", "DINT", 0), ("local", padded, 0)]))
     ids = iter(range(10, 400))
@@ -78,6 +83,10 @@ def p2_structs(reduced=False):
     p.tag("s480", s480, instance_id=next(ids))
     p.tag("hid1", hid, instance_id=next(ids))
     p.tag("timer1", timer, instance_id=next(ids))
+    p.tag("packet1", packet, instance_id=320)
+    p.tag("logline_ary", logline, (2,), instance_id=321)
+    p.tag("notstr1", notstr, instance_id=322)
+    p.tag("pholder1", holder, instance_id=323)
     for i, td_ in enumerate(hl):
         p.tag("hl_%s" % td_.name.lower(), td_, instance_id=300 + i)
     p.tag("aoi1", aoi, instance_id=next(ids))
@@ -121,6 +130,10 @@ def p3_scopes():
     p.add(TagDef("Flex:2:O2", modc, (), next(ids), kind="module"))
     p.add(TagDef("Guard:3:SI", modi, (), next(ids), kind="module"))
     p.add(TagDef("Guard:3:SO", modc, (), next(ids), kind="module"))
+    # junk that *looks* like module I/O: double-underscore names and system-flagged symbols with a connection suffix
+    p.add(TagDef("__DEFVAL_00002A41:C", modc, (), next(ids), kind="module"))
+    p.add(TagDef("Enet:2:S", modi, (), next(ids), kind="module", symbol_type=0x9000 | 0x313))
+    p.add(TagDef("__Prm_0004:O", modc, (), 90, scope="MainProgram", kind="module"))
     p.add(TagDef("Program:Second_Prog", None, (), next(ids), kind="program", symbol_type=0x1068))
     p.tag("ctl_ary", "INT", (10,), instance_id=next(ids))
     p.add(TagDef("Task:Periodic", None, (), next(ids), kind="task", symbol_type=0x1070))
